@@ -38,7 +38,13 @@ def _jaqal_find_spec_relative(mod_name, search_path):
     try_eggs = []
     egg_regexp = re.compile(f"{mod_name}-([^-]*)-(.*)\\.egg")
 
-    for candidate in os.listdir(search_path):
+    try:
+        candidates = os.listdir(search_path)
+    except OSError:
+        # A search path that does not exist or cannot be read holds no module.
+        candidates = []
+
+    for candidate in candidates:
         egg_version = egg_regexp.match(candidate)
         if egg_version:
             # TODO: Also check groups()[1] for Python version compatibility
